@@ -10,6 +10,7 @@
               S                      non-200 status
               B,<body>,<rerr 0|1>,<lm>,<proto>   200; lm: "-" absent | "x" unparsable | s<secs>
     N,<payload>,X                            DNS53 query, dial error
+    N,<payload>,L,<dgram>…                   DNS53 query whose datagrams are sent only after it has ended (strays)
     N,<payload>,G[,<datagram>…]              DNS53 query, these datagrams arrive, then silence
     C,<n>,<profilehex>,<payload>,<out…>      n identical DoH queries of one profile in flight together
                                              → c<n>,<the token each of them must produce>
@@ -104,6 +105,12 @@ def parseOp (tok : String) : Option DOp :=
   | ["N", pay, "X"] => do
       let q ← parseQ pay
       pure (.op (.dns53 q .dialErr))
+  | "N" :: pay :: "L" :: ds => do
+      -- the datagrams are sent only after the exchange has ended (its deadline passed): none arrives in time, and an
+      -- exchange owns its socket, so none is there for a later one either
+      let q ← parseQ pay
+      let _ ← parseDatagrams ds
+      pure (.op (.dns53 q (.datagrams [])))
   | "N" :: pay :: "G" :: ds => do
       let q ← parseQ pay
       let ds ← parseDatagrams ds
